@@ -91,6 +91,7 @@ const (
 	HangConfig  Mode = "hang-config" // (>=764) never finishes configuration
 	OnlineMode  Mode = "online"      // sends an encryption request (misconfigured backend)
 	NoForwarding Mode = "no-forwarding-request" // velocity mode: login success without asking for forwarding
+	CloseHandshake Mode = "close-handshake" // closes after reading the handshake, before the login start is answered or even read
 )
 
 // Behavior scripts one backend connection.
@@ -106,6 +107,8 @@ type Behavior struct {
 	// Delay before answering the login (stimulus, wall clock).
 	LoginDelay time.Duration
 	KickReason string
+	// KickDelay (KickPlay only): wait this long after JoinGame before kicking (stimulus).
+	KickDelay time.Duration
 }
 
 // Backend is a registered fake backend server.
@@ -119,6 +122,9 @@ type Backend struct {
 	conns    []*BackendConn
 	dials    int
 	DialHook func(n int) // called on each dial (stimulus: delays)
+	// DialObserver, if set, is told about every dial (also refused ones, which create no
+	// BackendConn) with the context the proxy passed and the behaviour chosen for it.
+	DialObserver func(n int, ctx context.Context, beh Behavior, at int64)
 }
 
 // BackendConn is one accepted connection on a fake backend.
@@ -137,6 +143,43 @@ type BackendConn struct {
 	joined    chan struct{}
 	loginSeen chan struct{}
 	EntityID  int
+	// DialCtx is the context the proxy passed to Dial (it derives from the context given to
+	// ConnectionRequest.Connect, so values a monitor put there identify the request).
+	DialCtx context.Context
+	// Logical stamps taken by the fake backend *before* it acts, so that anything the proxy
+	// does in reaction carries a later stamp: AnswerAt before the login is answered (success,
+	// kick or close), JoinSendAt before JoinGame is written, FailAt before the backend kicks
+	// or closes on its own initiative (any phase). Zero = did not happen.
+	AnswerAt   int64
+	JoinSendAt int64
+	FailAt     int64
+	// ProxyCloseAt is stamped synchronously inside the proxy's Close() of its end of the
+	// connection (EOFAt is when the fake backend's reader noticed, which is later).
+	ProxyCloseAt int64
+}
+
+// Stamps is a consistent copy of the logical time stamps of one backend connection.
+type Stamps struct {
+	DialAt, LoginAt, AnswerAt, JoinSendAt, JoinedAt, FailAt, EOFAt, ProxyCloseAt int64
+}
+
+// Stamps returns the stamps recorded so far (EOFAt: the proxy closed its end).
+func (bc *BackendConn) Stamps() Stamps {
+	bc.mu.Lock()
+	st := Stamps{DialAt: bc.DialAt, LoginAt: bc.LoginAt, AnswerAt: bc.AnswerAt, JoinSendAt: bc.JoinSendAt, JoinedAt: bc.JoinedAt, FailAt: bc.FailAt, ProxyCloseAt: bc.ProxyCloseAt}
+	bc.mu.Unlock()
+	bc.Peer.mu.Lock()
+	st.EOFAt = bc.Peer.EOFAt
+	bc.Peer.mu.Unlock()
+	return st
+}
+
+func (bc *BackendConn) stamp(f *int64) {
+	bc.mu.Lock()
+	if *f == 0 {
+		*f = Now()
+	}
+	bc.mu.Unlock()
 }
 
 type serverInfo struct {
@@ -192,7 +235,11 @@ func (b *Backend) dial(ctx context.Context, player proxy.Player) (net.Conn, erro
 	b.dials++
 	beh := b.behave(n)
 	hook := b.DialHook
+	obs := b.DialObserver
 	b.mu.Unlock()
+	if obs != nil {
+		obs(n, ctx, beh, Now())
+	}
 	if hook != nil {
 		hook(n)
 	}
@@ -205,9 +252,10 @@ func (b *Backend) dial(ctx context.Context, player proxy.Player) (net.Conn, erro
 	proxyEnd, backendEnd := lib.Pipe()
 	proxyEnd.SetAddrs(&net.TCPAddr{IP: net.IPv4(10, 9, 0, 2), Port: 40000 + n}, b.Addr)
 	pv := player.Protocol()
-	bc := &BackendConn{B: b, N: n, Behavior: beh, DialAt: Now(), joined: make(chan struct{}), loginSeen: make(chan struct{}), EntityID: 1000 + n}
+	bc := &BackendConn{B: b, N: n, Behavior: beh, DialAt: Now(), DialCtx: ctx, joined: make(chan struct{}), loginSeen: make(chan struct{}), EntityID: 1000 + n}
 	bc.Peer = newPeer(fmt.Sprintf("backend %s#%d", b.Name, n), backendEnd, proto.ServerBound, proto.ClientBound, pv)
 	bc.Peer.OnPacket = bc.onPacket
+	proxyEnd.OnClose(func() { bc.stamp(&bc.ProxyCloseAt) })
 	b.mu.Lock()
 	b.conns = append(b.conns, bc)
 	b.mu.Unlock()
@@ -240,6 +288,7 @@ func (bc *BackendConn) kick(st states.State) {
 	if reason == "" {
 		reason = "kicked by " + bc.B.Name
 	}
+	bc.stamp(&bc.FailAt)
 	_ = bc.Send(packet.NewDisconnect(&component.Text{Content: reason}, bc.Proto, st))
 	bc.Close()
 }
@@ -250,6 +299,11 @@ func (bc *BackendConn) onPacket(r *Rec) {
 		bc.mu.Lock()
 		bc.Handshake = pk
 		bc.mu.Unlock()
+		if bc.Behavior.Mode == CloseHandshake {
+			bc.stamp(&bc.FailAt)
+			bc.Close()
+			return
+		}
 		if pk.NextStatus == 1 {
 			bc.SetReadState(state.Status)
 			bc.SetWriteState(state.Status)
@@ -268,11 +322,14 @@ func (bc *BackendConn) onPacket(r *Rec) {
 		}
 		switch bc.Behavior.Mode {
 		case KickLogin:
+			bc.stamp(&bc.AnswerAt)
 			bc.kick(states.LoginState)
 			return
 		case HangLogin:
 			return
 		case CloseLogin:
+			bc.stamp(&bc.AnswerAt)
+			bc.stamp(&bc.FailAt)
 			bc.Close()
 			return
 		case OnlineMode:
@@ -324,6 +381,7 @@ func (bc *BackendConn) finishLogin() {
 		name = bc.Login.Username
 	}
 	bc.mu.Unlock()
+	bc.stamp(&bc.AnswerAt)
 	_ = bc.Send(&packet.ServerLoginSuccess{UUID: uuid.OfflinePlayerUUID(name), Username: name})
 	if bc.Proto < 764 {
 		bc.SetReadState(state.Play)
@@ -334,12 +392,16 @@ func (bc *BackendConn) finishLogin() {
 }
 
 func (bc *BackendConn) sendJoin() {
+	bc.stamp(&bc.JoinSendAt)
 	_ = bc.Send(MakeJoinGame(bc.Proto, bc.EntityID))
 	bc.mu.Lock()
 	bc.JoinedAt = Now()
 	bc.mu.Unlock()
 	close(bc.joined)
 	if bc.Behavior.Mode == KickPlay {
+		if bc.Behavior.KickDelay > 0 {
+			time.Sleep(bc.Behavior.KickDelay)
+		}
 		bc.kick(states.PlayState)
 	}
 }
